@@ -990,6 +990,22 @@ func (in *inst) accessProbes(s ast.Stmt) []ast.Stmt {
 		case *ast.IncDecStmt:
 			addWrite(x.X)
 		case *ast.CallExpr:
+			// a method with a pointer receiver called on a package-level variable of struct
+			// type (a shared buffer, a counter object ...) may change it: a write
+			if se, ok := x.Fun.(*ast.SelectorExpr); ok {
+				if selInfo := in.info.Selections[se]; selInfo != nil && selInfo.Kind() == types.MethodVal {
+					if v, e := in.pkgVar(se.X); v != nil {
+						if _, isStruct := v.Type().Underlying().(*types.Struct); isStruct {
+							if sig, ok := selInfo.Obj().Type().(*types.Signature); ok && sig.Recv() != nil {
+								if _, ptr := sig.Recv().Type().(*types.Pointer); ptr {
+									writes[e] = true
+									accs = append(accs, access{v, e, true})
+								}
+							}
+						}
+					}
+				}
+			}
 			if id, ok := x.Fun.(*ast.Ident); ok && id.Name == "delete" && len(x.Args) == 2 {
 				if _, isB := in.info.Uses[id].(*types.Builtin); isB {
 					if v, e := in.pkgVar(x.Args[0]); v != nil {
